@@ -100,6 +100,82 @@ def scratch : List (String × String) :=
    ("ion_list", "cleared and filled by pitzer_make_lists / sit_make_lists for every model"),
    ("param_list", "cleared and filled by pitzer_make_lists / sit_make_lists for every model")]
 
+/-- the code shape each `healed` reason rests on, checked against the AST on every run (Gen.Members.policyEvidence):
+    top:F = an unconditional reset-form statement at the top level of function F (not inside if/loop/switch);
+    any:F = a reset-form statement somewhere in F; topcall:F:M = an unconditional top-level call member.M() in F -/
+def healedBy : List (String × String) :=
+  [("delete_info", "topcall:delete_entities:SetAll"),
+   ("unnumbered_solutions", "any:tidy_solutions"),
+   ("gfw_map", "top:read_master_species"),
+   ("rates_map", "top:read_rates")]
+
+def ioHealedBy : List (String × String) :=
+  [("io.punch_on", "call:tidy_punch:Set_punch_on")]
+
+/-- for every scratch member that is written at all: a function that writes it (writes:F), checked against the AST -/
+def scratchWriter : List (String × String) :=
+  [("last_model.numerical_fixed_volume", "writes:save_model"),
+   ("charge_group_map", "writes:calc_all_donnan"),
+   ("Dispersion_mix_map", "writes:init_mix"),
+   ("description_x", "writes:prep"),
+   ("units_x", "writes:xsolution_zero"),
+   ("default_pe_x", "writes:clear"),
+   ("mixrun", "writes:transport"),
+   ("s_diff_layer", "writes:calc_init_donnan"),
+   ("sit_aqueous_unknowns", "writes:build_model"),
+   ("gas_unknowns", "writes:setup_fixed_volume_gas"),
+   ("status_string", "writes:status"),
+   ("screen_string", "writes:status"),
+   ("rate_p", "writes:calc_kinetic_reaction"),
+   ("kgw_kgs", "writes:initial_solutions"),
+   ("bdot_llnl", "writes:gammas"),
+   ("solution_volume_x", "writes:calc_dens"),
+   ("solution_mass_x", "writes:calc_dens"),
+   ("rho_0_sat", "writes:calc_rho_0"),
+   ("SC", "writes:calc_SC"),
+   ("sys", "writes:system_total"),
+   ("sum_species_map", "writes:build_model"),
+   ("sum_species_map_db", "writes:build_model"),
+   ("tally_table", "writes:free_tally_table"),
+   ("inverse_heading_names", "writes:punch_model_heading"),
+   ("x_arg", "writes:cl1"),
+   ("res_arg", "writes:cl1"),
+   ("scratch", "writes:cl1"),
+   ("col_name", "writes:setup_inverse"),
+   ("row_name", "writes:setup_inverse"),
+   ("inv_zero", "writes:setup_inverse"),
+   ("array1", "writes:setup_inverse"),
+   ("inv_res", "writes:setup_inverse"),
+   ("inv_delta1", "writes:setup_inverse"),
+   ("delta2", "writes:setup_inverse"),
+   ("delta3", "writes:setup_inverse"),
+   ("inv_cu", "writes:solve_inverse"),
+   ("delta_save", "writes:setup_inverse"),
+   ("min_delta", "writes:setup_inverse"),
+   ("max_delta", "writes:setup_inverse"),
+   ("inv_iu", "writes:solve_inverse"),
+   ("inv_is", "writes:solve_inverse"),
+   ("row_back", "writes:solve_inverse"),
+   ("col_back", "writes:solve_inverse"),
+   ("good", "writes:solve_inverse"),
+   ("bad", "writes:solve_inverse"),
+   ("minimal", "writes:solve_inverse"),
+   ("normal", "writes:ineq"),
+   ("ineq_array", "writes:ineq"),
+   ("res", "writes:ineq"),
+   ("cu", "writes:ineq"),
+   ("zero", "writes:ineq"),
+   ("delta1", "writes:ineq"),
+   ("iu", "writes:ineq"),
+   ("is", "writes:ineq"),
+   ("back_eq", "writes:ineq"),
+   ("s_list", "writes:pitzer_make_lists"),
+   ("cation_list", "writes:pitzer_make_lists"),
+   ("neutral_list", "writes:pitzer_make_lists"),
+   ("anion_list", "writes:pitzer_make_lists"),
+   ("ion_list", "writes:pitzer_make_lists"),
+   ("param_list", "writes:pitzer_make_lists")]
+
 /-- what a load does with each data member of class IPhreeqc and (prefix io.) of its base PHRQ_io:
     id | switch | name : survivors named by the property;  unload : reset by UnLoadDatabase;
     percall : overwritten by every Run* call (check_database, update_errors, close_output_files) and therefore by test_db;
